@@ -366,7 +366,7 @@ class PhonopyAtoms:
             DeprecationWarning,
             stacklevel=2,
         )
-        self._numbers_with_shifts = numbers
+        self._numbers_with_shifts = np.array(numbers, dtype="intc")
         self._check()
         self._numbers_to_symbols()
         self._symbols_to_masses()
